@@ -47,6 +47,8 @@ DEFAULT_PROFILE = {
     "p_ondone_targetless": 0.0,
     "assign_only": False,
     "rich_guards": False,
+    "p_delayed_raise": 0.0,
+    "p_stop_act": 0.0,
     "w_missing_guard": 0.6,
 }
 
@@ -257,6 +259,15 @@ class MachineGen:
         if rng.random() < p["p_raise"] and where != "exit":
             ev = rng.choice(self.raise_events)
             out.append({"type": "xstate.raise", "params": {"event": {"type": ev}}})
+        if p.get("p_delayed_raise") and rng.random() < p["p_delayed_raise"] and where != "exit":
+            ev = rng.choice(self.raise_events)
+            d = rng.choice(p["delays"])
+            prm = {"event": {"type": ev}, "delay": d}
+            if rng.random() < 0.5:
+                prm["id"] = f"snd{rng.randint(1, 3)}"
+            out.append({"type": "xstate.raise", "params": prm})
+        if p.get("p_stop_act") and rng.random() < p["p_stop_act"] and where == "trans":
+            out.append(self.act("stop_inside", [["stop"]]))
         if rng.random() < p["p_slow_act"]:
             us = rng.choice((1000, 5000, 10000, 20000, 50000))
             out.append(self.act(f"slow_{us}", [["slow", us]]))
